@@ -240,3 +240,9 @@ b("pcgrad-maintained-products-wrong-start", ["C18"], "@seed", _os.path.join(_PD,
 b("jac-row-buffer-always-at-zero", ["C15"], "@seed", _os.path.join(_PD, "jac-row-buffer-always-at-zero.diff"), "", "later blocks overwrite the first one and the remaining rows are uninitialised memory")
 # GradDrop without a loop, the leak blended in with torch.lerp (see seeded/C18-r9C for the reversed arguments): the correct spelling is silent
 k("graddrop-vectorised-lerp", ["C18", "C11", "C10"], "@seed", _os.path.join(_PD, "graddrop-vectorised-lerp.diff"), "", "lerp(mask, 1, leak) = mask + leak * (1 - mask): kept entries weigh 1, dropped ones leak_i")
+# Krum's distance matrix filled row by row (see seeded_keep/C16-r10K1): `row - matrix` is the same matrix, the 1-norm is not
+k("krum-rowloop-row-minus-matrix", ["C16", "C08", "C10", "C11"], "@seed", _os.path.join(_PD, "krum-rowloop-row-minus-matrix.diff"), "", "||row - matrix|| = ||matrix - row||")
+b("krum-rowloop-l1-norm", ["C16"], "@seed", _os.path.join(_PD, "krum-rowloop-l1-norm.diff"), "", "Manhattan distances: other rows are nearest")
+# Conjunction / Stack checks through a family of frozensets and a Counter (see seeded_keep/C14-r8K1): the twins that accept a deviating member / duplicated outputs
+b("keysets-family-accepts-two", ["C14"], "@seed", _os.path.join(_PD, "keysets-family-accepts-two.diff"), "", "`len(family) > 2`: one member may require other keys")
+b("keysets-counter-never-raises", ["C14"], "@seed", _os.path.join(_PD, "keysets-counter-never-raises.diff"), "", "`total() < len()` is never true: members may output a common key")
